@@ -335,6 +335,16 @@ std::string handle(const std::string& op, Args& a)
 			o << I.Derivative(x, k);
 		});
 	}
+	if(op == "c10.interp.hist")	  // a history of Interpolate calls on ONE object
+	{
+		auto xs = a.dbls(), vs = a.dbls();
+		a.end();
+		return run_forked([&](Out& o) {
+			Interpolation I(xs, ramp(xs.size()));
+			for(double v : vs)
+				o << I.Interpolate(v);
+		});
+	}
 	if(op == "c10.interp.integ" || op == "c10.interp.lmin" || op == "c10.interp.lmax")
 	{
 		auto xs	  = a.dbls();
